@@ -37,7 +37,7 @@ ISAS = {
                   filler=bytes.fromhex("13000000"), pad=8, align=4),
     "riscv:rvc": dict(machine=243, triple="riscv32", mattr="+m,+c,+f,+d,+a", extra=["-M", "no-aliases"],
                       filler=bytes.fromhex("13000000"), pad=8, align=4),
-    "arm": dict(machine=40, triple="armv7a", mattr="+hwdiv-arm,+vfp3,+neon", eflags=0x05000000,
+    "arm": dict(machine=40, triple="armv7a", mattr="+hwdiv-arm", eflags=0x05000000,
                 filler=bytes.fromhex("00f020e3"), pad=4, align=4),
     "arm:thumb": dict(machine=40, triple="thumbv7a", mattr="+hwdiv", eflags=0x05000000,
                       filler=bytes.fromhex("00bf"), pad=8, align=4),
@@ -175,7 +175,7 @@ def run_llvm(isa, blob, workdir, tag="b"):
     path = os.path.join(workdir, "refdis-%s.elf" % tag)
     with open(path, "wb") as f:
         f.write(make_elf(blob, cfg["machine"], cfg.get("bits", 32), cfg.get("big", False), cfg.get("eflags", 0)))
-    cmd = [LLVM_OBJDUMP, "-d", "--triple=" + cfg["triple"]]
+    cmd = [LLVM_OBJDUMP, "-d", "-z", "--triple=" + cfg["triple"]]   # -z: do not elide runs of zero bytes
     if cfg.get("mattr"):
         cmd.append("--mattr=" + cfg["mattr"])
     if cfg.get("mcpu"):
@@ -193,7 +193,7 @@ def run_gnu_x86(blob, workdir, tag="g"):
     path = os.path.join(workdir, "refdis-%s.bin" % tag)
     with open(path, "wb") as f:
         f.write(blob)
-    r = subprocess.run([GNU_OBJDUMP, "-D", "-b", "binary", "-m", "i386:x86-64", "-M", "intel", path],
+    r = subprocess.run([GNU_OBJDUMP, "-D", "-z", "-b", "binary", "-m", "i386:x86-64", "-M", "intel", path],
                        capture_output=True, text=True, timeout=600, errors="replace")
     try:
         os.unlink(path)
@@ -252,7 +252,7 @@ def is_invalid(text):
 _TOK = re.compile(r"""
       (?P<hex>-?0x[0-9a-fA-F]+)
     | (?P<num>-?\d+)
-    | (?P<id>[%$]?[A-Za-z_.][A-Za-z_0-9.]*)
+    | (?P<id>[%$]?[A-Za-z_.][A-Za-z_0-9.]*|\$\d+)
     | (?P<glyph>[\[\](){}+\-*,:#&@!=^])
     | (?P<ws>\s+)
     | (?P<other>.)
@@ -383,6 +383,9 @@ def normalise(isa, text, labels=(), ref=False):
     text = strip_comment(isa, text) if ref else text
     if isa == "avr":
         text = _AVR_PAIR.sub(lambda m: "r%s" % m.group(2), text)
+    if isa == "avr" and ref:
+        # llvm prints pc-relative targets as ".+N" / ".-N"
+        text = text.replace(".+", " ").replace(".-", " -")
     if isa == "msp430" and ref:
         # llvm prints pc-relative jump targets as "$+2"; keep the number
         text = text.replace("$", "")
@@ -400,17 +403,23 @@ def normalise(isa, text, labels=(), ref=False):
     keep = KEEP_KEYWORDS.get(isa, ())
     neg = False
     prev_glyph = None
+    depth = 0          # inside [...]
+    inner = 0          # atoms seen inside the current bracket
     while i < len(toks):
         k, v = toks[i]
         i += 1
-        if k == "hex":
-            atoms.append(int(v, 16))
-        elif k == "num":
-            n = int(v)
+        if k in ("hex", "num"):
+            n = int(v, 16) if k == "hex" else int(v)
             if neg:
                 n = -n
                 neg = False
+            if isa == "x86_64" and depth and n == 0 and inner:
+                # [base + 0] is the effective address [base]; llvm omits a zero displacement
+                continue
+            if isa == "x86_64" and depth and prev_glyph == "*" and n == 1:
+                continue   # index scale 1 is not spelled by llvm
             atoms.append(n)
+            inner += 1 if depth else 0
         elif k == "id":
             lw = v.lower()
             if v in labels or lw in labels:
@@ -419,6 +428,7 @@ def normalise(isa, text, labels=(), ref=False):
             r = _canon_reg(isa, v)
             if r is not None:
                 atoms.append(r)
+                inner += 1 if depth else 0
             elif lw in drop:
                 continue
             elif lw in keep:
@@ -426,10 +436,16 @@ def normalise(isa, text, labels=(), ref=False):
             else:
                 return None
         elif k == "glyph":
+            if v == "[":
+                depth, inner = depth + 1, 0
+            elif v == "]":
+                depth = max(0, depth - 1)
             if v == "-" and i < len(toks) and toks[i][0] == "num" and not toks[i][1].startswith("-"):
                 # "[r13 - 127]" (x86 intel syntax) / "Y+-32": sign belongs to the number
                 neg = True
-            elif v in "@&" and isa == "msp430":
+            elif v == "!" and isa.startswith("arm"):
+                atoms.append("!")   # base register write-back is part of the operation
+            elif v in "@&#(" and isa == "msp430":
                 atoms.append(v)   # addressing mode glyphs are part of the operand kind
             elif v == "+" and isa in ("msp430", "avr") and prev_glyph != "num":
                 atoms.append("+") if _postinc(toks, i) else None
@@ -452,7 +468,13 @@ def norm_ref(isa, text):
     return normalise(isa, text, (), ref=True)
 
 
-def norm_ppci(isa, text, labels=()):
+def norm_ppci(isa, text, labels=(), mnemonic=None):
+    """`mnemonic`: the literal mnemonic element of the class's syntax.  Some ppci syntaxes lack the blank
+    after it (`sdivR1,R2,R3`, C09 finding syntax-elements-glued); the separator is re-inserted here because
+    C08 judges the encoding, not the spacing."""
+    if mnemonic and text.startswith(mnemonic) and len(text) > len(mnemonic) and \
+            (text[len(mnemonic)].isalnum() or text[len(mnemonic)] in "_-"):
+        text = mnemonic + " " + text[len(mnemonic):]
     return normalise(isa, text, labels, ref=False)
 
 
@@ -502,9 +524,65 @@ def _riscv_rewrites():
     return R
 
 
+ARM_CONDS = ("eq", "ne", "cs", "hs", "cc", "lo", "mi", "pl", "vs", "vc", "hi", "ls", "ge", "lt", "gt", "le", "")
+ARM_SHIFTS = ("lsl", "lsr", "asr", "ror")
+
+
+def _arm_rewrites():
+    R = {}
+    for c in ARM_CONDS:
+        # ARM ARM A8.8.104 / UAL: MOV{c} Rd, Rm, <shift> #n is the pre-UAL spelling of <shift>{c} Rd, Rm, #n
+        # (and LSL #0 is the identity: plain MOV).  llvm prints the UAL form.
+        def mov4(a, c=c):
+            if a[2] in ARM_SHIFTS and isinstance(a[3], int):
+                if a[2] == "lsl" and a[3] == 0:
+                    return ("mov" + c, [a[0], a[1]])
+                return (a[2] + c, [a[0], a[1], a[3]])
+            return ("mov" + c, a)
+        R[("mov" + c, 4)] = (mov4, "UAL: MOV Rd, Rm, <shift> #n == <shift> Rd, Rm, #n; LSL #0 == MOV Rd, Rm")
+    return R
+
+
+def _arm_generic(mnem, atoms):
+    """Spelling rules that depend on the operand shape, not on one mnemonic (ARM / Thumb)."""
+    why = None
+    # "..., Rm, lsl #0": LSL #0 is the identity shift; UAL (and llvm) omit it
+    if len(atoms) >= 3 and atoms[-2:] == ["lsl", 0]:
+        atoms, why = atoms[:-2], "LSL #0 is the identity shift and is omitted in UAL"
+    # "[Rn, #0]" and "[Rn]" are the same addressing mode; llvm omits a zero offset
+    if mnem[:3] in ("ldr", "str") and len(atoms) == 3 and atoms[2] == 0 and isinstance(atoms[1], str):
+        atoms, why = atoms[:2], "[Rn, #0] == [Rn]: zero offset omitted"
+    # "ldr Rt, label" is the literal form "ldr Rt, [pc, #off]"
+    if mnem[:3] == "ldr" and len(atoms) == 2 and isinstance(atoms[1], tuple):
+        atoms, why = [atoms[0], "pc", atoms[1]], "LDR (literal): label == [pc, #offset]"
+    return mnem, atoms, why
+
+
+def _thumb_rewrites():
+    R = {}
+    R[("mul", 2)] = (lambda a: ("mul", [a[1], a[0], a[1]]),
+                     "ppci's documented Thumb syntax is `mul Rn, Rdm` (Rdm = Rn * Rdm); UAL spells the same T1 "
+                     "encoding `muls Rdm, Rn, Rdm`")
+    for mn in ("add", "sub"):
+        R[(mn, 3)] = (lambda a, mn=mn: (mn, [a[0], a[2]]) if a[0] == a[1] == "sp" else (mn, a),
+                      "ADD/SUB SP, SP, #imm == ADD/SUB SP, #imm: UAL permits omitting the repeated destination")
+    R[("rsb", 2)] = (lambda a: ("rsb", [a[0], a[1], 0]),
+                     "Thumb T1 RSBS Rd, Rn, #0 (NEG): ppci prints `rsb Rd, Rn`, the immediate is always 0")
+    return R
+
+
+# Thumb 16-bit data-processing encodings set the flags outside an IT block; pre-UAL Thumb syntax (which ppci
+# prints) writes them without S, UAL (which llvm prints) with S (ARM ARM A4.2 / D7 "pre-UAL Thumb syntax")
+THUMB_S = {"movs": "mov", "adds": "add", "subs": "sub", "muls": "mul", "ands": "and", "orrs": "orr", "eors": "eor",
+           "lsls": "lsl", "lsrs": "lsr", "asrs": "asr", "rsbs": "rsb", "negs": "neg", "mvns": "mvn", "bics": "bic",
+           "adcs": "adc", "sbcs": "sbc", "rors": "ror"}
+
+
 REWRITES = {
+    "arm:thumb": _thumb_rewrites(),
     "riscv": _riscv_rewrites(),
     "riscv:rvc": _riscv_rewrites(),
+    "arm": _arm_rewrites(),
 }
 
 # plain mnemonic spellings: ppci -> reference, with justification
@@ -512,7 +590,17 @@ MNEMONIC_ALIASES = {
     "x86_64": {
         "jz": ("je", "Intel SDM: JZ and JE are the same opcode (0F 84)"),
         "jnz": ("jne", "Intel SDM: JNZ and JNE are the same opcode"),
+        "jmpshort": ("jmp", "ppci spells JMP rel8 (opcode EB) `jmpshort`; llvm prints jmp"),
     },
+    "arm": {
+        "subcc": ("sublo", "ARM ARM A8.3: CC and LO name the same condition (C clear)"),
+        "subcs": ("subhs", "ARM ARM A8.3: CS and HS name the same condition (C set)"),
+        "bcc": ("blo", "CC == LO"), "bcs": ("bhs", "CS == HS"),
+    },
+    "arm:thumb": dict(
+        [("bw", ("b.w", "ppci spells the 32-bit branch encodings (T3/T4) with a w suffix, UAL with .w"))]
+        + [("b%sw" % c, ("b%s.w" % c, "32-bit conditional branch (T3): ppci suffix w == UAL .w"))
+           for c in ("eq", "ne", "hs", "lo", "hi", "ls", "lt", "le", "gt", "ge", "mi", "pl", "vs", "vc")]),
     "msp430": {
         "jnz": ("jne", "SLAU049: JNE/JNZ one opcode"), "jz": ("jeq", "JEQ/JZ one opcode"),
         "jnc": ("jlo", "JNC/JLO one opcode"), "jc": ("jhs", "JC/JHS one opcode"),
@@ -520,37 +608,171 @@ MNEMONIC_ALIASES = {
 }
 
 
+M68K_BASES = {"add", "and", "cmp", "eor", "move", "movea", "or", "sub", "neg", "not", "clr", "tst", "adda", "suba",
+              "addi", "subi", "cmpi", "lsl", "lsr", "asl", "asr", "ext", "mulu", "muls", "divu", "divs"}
+
+
+def _m68k_mnemonic(m):
+    # MIT/GNU syntax spells the operand size as a suffix letter (addb), Motorola syntax (llvm) as .b/.w/.l;
+    # MOVEA is MOVE with an address-register destination and llvm prints it as move
+    if len(m) > 1 and m[-1] in "bwl" and m[:-1] in M68K_BASES:
+        base = m[:-1]
+        if base == "movea":
+            base = "move"
+        return base + "." + m[-1], "MIT size suffix == Motorola .size; MOVEA printed as MOVE by llvm"
+    return m, None
+
+
 def rewrite(isa, mnem, atoms):
     """Apply the equivalence table to ppci's normalised form."""
     why = None
+    if isa == "m68k":
+        mnem, why = _m68k_mnemonic(mnem)
+    if isa == "msp430":
+        atoms = _msp430_modes(atoms)
     r = REWRITES.get(isa, {}).get((mnem, len(atoms)))
     if r is not None:
         mnem, atoms = r[0](atoms)
         why = r[1]
+    if isa.startswith("arm"):
+        mnem, atoms, w2 = _arm_generic(mnem, atoms)
+        why = w2 or why
     al = MNEMONIC_ALIASES.get(isa, {}).get(mnem)
     if al is not None:
         mnem, why = al[0], al[1]
     return mnem, atoms, why
 
 
-def same(isa, p, r):
-    """Compare ppci's (rewritten) normal form with the reference's. Label wildcards match one integer."""
-    pm, pa = p
-    rm, ra = r
+def same(isa, p, r, label_ok=None):
+    """Compare ppci's (rewritten) normal form with the reference's.
+
+    A label atom matches one integer: any integer when the instance was encoded unrelocated (the field is
+    filled at link time, C11), else one of ``label_ok`` (the symbol value or its pc-relative / hi-lo forms)."""
+    pm, pa = canon(isa, *p)
+    rm, ra = canon(isa, r[0], r[1], ref=True)
+    if isa.startswith("arm") and pm == "adr" and rm in ("add", "sub") and len(ra) == 3 and ra[1] == "pc" \
+            and isinstance(ra[2], int):
+        # ADR Rd, label (ARM ARM A8.8.12) is ADD/SUB Rd, pc, #imm; llvm prints the add/sub form
+        rm, ra = "adr", [ra[0], ra[2] if rm == "add" else -ra[2]]
     if pm != rm:
         return False, "operation %s vs %s" % (pm, rm)
     if len(pa) != len(ra):
         return False, "operand count %s vs %s" % (pa, ra)
     for i, (x, y) in enumerate(zip(pa, ra)):
         if isinstance(x, tuple) and x[0] == "L":
-            if isinstance(y, int):
-                continue   # unrelocated label: the field is filled at link time (C11)
-            return False, "operand %d: label vs %r" % (i, y)
+            if isinstance(y, int) and (label_ok is None or y in label_ok):
+                continue
+            return False, "operand %d: label %s vs %r (expected one of %s)" % (
+                i, x[1], y, sorted(label_ok)[:6] if label_ok else "int")
         if x != y:
             return False, "operand %d: %r vs %r" % (i, x, y)
     return True, None
 
 
+# MSP430 emulated instructions (SLAU049 table 3-17): llvm prints the emulated mnemonic, ppci the core instruction
+MSP430_EMULATED = {
+    "clr": ("mov", 0), "adc": ("addc", 0), "sbc": ("subc", 0), "tst": ("cmp", 0), "inv": ("xor", -1),
+    "inc": ("add", 1), "incd": ("add", 2), "dec": ("sub", 1), "decd": ("sub", 2), "dadc": ("dadd", 0),
+}
+
+
+def _msp430_canon(mnem, atoms, ref=False):
+    base, dot, size = mnem.partition(".")
+    if size == "w":
+        mnem, size = base, ""      # .w is the default operand size; llvm omits it
+    if base in MSP430_EMULATED:
+        core, const = MSP430_EMULATED[base]
+        mnem = core + ("." + size if size else "")
+        atoms = ["#", const] + list(atoms)
+    elif base == "br":
+        mnem, atoms = "mov", list(atoms) + ["r0"]            # BR dst == MOV dst, PC
+    elif base == "ret":
+        mnem, atoms = "mov", ["@", "r1", "+", "r0"]          # RET == MOV @SP+, PC
+    elif base == "pop":
+        mnem, atoms = "mov" + ("." + size if size else ""), ["@", "r1", "+"] + list(atoms)   # POP dst == MOV @SP+, dst
+    elif base == "nop":
+        mnem, atoms = "mov", ["#", 0, "r3"]                  # NOP == MOV #0, R3
+    elif base in ("clrc", "clrz", "clrn", "dint", "setc", "setz", "setn", "eint"):
+        bit = {"c": 1, "z": 2, "n": 4, "t": 8}[base[-1]]
+        mnem, atoms = ("bic" if base in ("clrc", "clrz", "clrn", "dint") else "bis"), ["#", bit, "r2"]
+    elif base in ("rla", "rlc") and len(atoms) >= 1:
+        # RLA dst == ADD dst,dst; RLC dst == ADDC dst,dst
+        mnem = ("add" if base == "rla" else "addc") + ("." + size if size else "")
+        atoms = list(atoms) + list(atoms)
+    atoms = list(atoms)
+    if not ref:
+        return mnem, atoms
+    # reference side only: llvm prints some constant-generator encodings raw
+    # constant generators (SLAU049 table 3-2): @r3+ = -1, @r3 = 2, @r2+ = 8, @r2 = 4 as source operand
+    for pat, const in ((["@", "r3", "+"], -1), (["@", "r2", "+"], 8), (["@", "r3"], 2), (["@", "r2"], 4)):
+        if atoms[:len(pat)] == pat:
+            atoms = ["#", const] + atoms[len(pat):]
+            break
+    if atoms and atoms[0] == "r3" and atoms[1:2] != ["("]:
+        atoms = ["#", 0] + atoms[1:]     # r3 read in register mode is the constant 0 (CG2, SLAU049 3.2.4)
+    return mnem, atoms
+
+
+def _msp430_modes(atoms):
+    """ppci side only: X(r0) is symbolic mode (llvm prints the bare offset X); X(r2) is absolute mode &X
+    (SLAU049 3.3: spellings of one addressing mode)."""
+    out = []
+    i = 0
+    while i < len(atoms):
+        a = atoms[i]
+        if isinstance(a, (int, tuple)) and atoms[i + 1:i + 3] == ["(", "r0"]:
+            out.append(a)
+            i += 3
+            continue
+        if isinstance(a, (int, tuple)) and atoms[i + 1:i + 3] == ["(", "r2"]:
+            out.extend(["&", a])
+            i += 3
+            continue
+        out.append(a)
+        i += 1
+    return out
+
+
+def _regnum(name):
+    m = re.search(r"(\d+)$", name)
+    return {"sp": 13, "lr": 14, "pc": 15}.get(name, int(m.group(1)) if m else 99)
+
+
+def canon(isa, mnem, atoms, ref=False):
+    """Spelling-independent form applied to BOTH sides."""
+    if isa == "x86_64":
+        if mnem == "movabs":
+            mnem = "mov"    # llvm's spelling of MOV r64, imm64 (REX.W B8+r); Intel SDM: MOV
+        if mnem in ("movsb", "movsw", "movsd", "movsq", "stosb", "lodsb", "cmpsb", "scasb") and \
+                atoms and all(a in ("es", "rdi", "rsi", "ds", "al") for a in atoms):
+            atoms = []      # string instructions have implicit operands only; llvm spells them out
+    if isa == "msp430":
+        mnem, atoms = _msp430_canon(mnem, atoms, ref)
+    if isa == "m68k":
+        # a label operand is the PC-relative mode (d16,PC); llvm spells the mode, ppci prints the label only
+        atoms = [a for i, a in enumerate(atoms) if not (a == "pc" and i and isinstance(atoms[i - 1], (int, tuple)))]
+    if isa == "avr":
+        # AVR instruction set manual: LSL Rd == ADD Rd,Rd; ROL Rd == ADC Rd,Rd; TST Rd == AND Rd,Rd;
+        # CLR Rd == EOR Rd,Rd (same opcodes); llvm prints the one-operand alias when both registers are equal
+        one = {"lsl": "add", "rol": "adc", "tst": "and", "clr": "eor"}
+        if mnem in one and len(atoms) == 1:
+            mnem, atoms = one[mnem], [atoms[0], atoms[0]]
+    if isa == "arm:thumb" and mnem in THUMB_S:
+        mnem = THUMB_S[mnem]
+    if isa == "arm" and mnem.startswith("mrc"):
+        # MRC with Rt = 15 writes the APSR flags (ARM ARM A8.8.108); llvm spells that register apsr_nzcv
+        atoms = ["pc" if a == "apsr_nzcv" else a for a in atoms]
+    if isa.startswith("arm") and mnem in ("stmdb", "ldm", "ldmia") and atoms[:2] == ["sp", "!"]:
+        # ARM ARM A8.8.133/A8.8.132: PUSH/POP <registers> are STMDB SP!/LDM SP!, <registers>; llvm prints the
+        # STM/LDM spelling for one-register lists
+        mnem, atoms = ("push" if mnem == "stmdb" else "pop"), atoms[2:]
+    if isa.startswith("arm") and mnem in ("push", "pop", "ldm", "stm", "ldmia", "stmdb", "ldmfd", "stmfd"):
+        # a register list is a set (encoded as a bit mask): order of spelling carries no information
+        regs = sorted((a for a in atoms if isinstance(a, str)), key=_regnum)
+        atoms = regs + [a for a in atoms if not isinstance(a, str)]
+    return mnem, atoms
+
+
 def table_size(isa):
     return (len(REWRITES.get(isa, {})) + len(MNEMONIC_ALIASES.get(isa, {})) + len(REG_ALIASES.get(isa, {}))
-            + len(DROP_WORDS.get(isa, ())))
+            + len(DROP_WORDS.get(isa, ())) + (len(THUMB_S) if isa == "arm:thumb" else 0))
